@@ -107,12 +107,16 @@ def merge_stubs(mod1: Module, mod2: Module) -> Module:
         mod2: A regular module or stubs module.
 
     Raises:
-        ValueError: When both modules are regular modules (no stubs is passed).
+        ValueError: When both modules are regular modules (no stubs is passed),
+            or when one of them is a namespace package.
 
     Returns:
         The regular module.
     """
     logger.debug("Trying to merge %s and %s", mod1.filepath, mod2.filepath)
+    if isinstance(mod1.filepath, list) or isinstance(mod2.filepath, list):
+        # The file path of a namespace package is a list of directories: it has no module file, hence no stubs.
+        raise ValueError("cannot merge namespace packages")  # noqa: TRY004
     if mod1.filepath.suffix == ".pyi":  # type: ignore[union-attr]
         stubs = mod1
         module = mod2
